@@ -128,6 +128,21 @@ class Chief(Role[Person], Symbol):
 
 
 @dataclass(eq=False)
+class ChiefE(Role[Person], Symbol):
+    """the role's own field is declared before the role-taker field: the generated __init__ assigns it first"""
+    head_of: Org
+    person: Person
+
+    __hash__ = object.__hash__
+
+    def __eq__(self, other):
+        return self is other
+
+    def __repr__(self):
+        return f"ChiefE({self.person.name})"
+
+
+@dataclass(eq=False)
 class ChiefF(Role["Person"], Symbol):
     """the same role, its role taker written as a forward reference"""
     person: Person
@@ -357,6 +372,7 @@ Person.works_for = WorksFor(Person, "works_for")
 Person.member_of = MemberOf(Person, "member_of")
 Chief.head_of = HeadOf(Chief, "head_of")
 ChiefF.head_of = HeadOf(ChiefF, "head_of")
+ChiefE.head_of = HeadOf(ChiefE, "head_of")
 Org.members = Member(Org, "members")
 VPerson.member_of = MemberOf(VPerson, "member_of")
 VOrg.members = Member(VOrg, "members")
@@ -379,5 +395,5 @@ PERSON_CLASSES = {"Person": Person, "Employee": Employee, "Manager": Manager, "V
                   "WorkingStudent": WorkingStudent}
 ORG_CLASSES = {"Org": Org, "Dept": Dept}
 ODD_CLASSES = {"Bag": Bag, "Crate": Crate}
-ALL_CLASSES = {**PERSON_CLASSES, **ORG_CLASSES, "SeasonalA": SeasonalA, "SeasonalB": SeasonalB, "Loose": Loose, "Chief": Chief, "ChiefF": ChiefF, "VOrg": VOrg, "VPerson": VPerson, "Unit": Unit,
+ALL_CLASSES = {**PERSON_CLASSES, **ORG_CLASSES, "SeasonalA": SeasonalA, "SeasonalB": SeasonalB, "Loose": Loose, "Chief": Chief, "ChiefF": ChiefF, "ChiefE": ChiefE, "VOrg": VOrg, "VPerson": VPerson, "Unit": Unit,
                "Visitor": Visitor, "Delegate": Delegate, "Chair": Chair, "Convener": Convener, "Boss": Boss, "Folder": Folder, "Stamp": Stamp, "Row": Row, "Lenient": Lenient}
